@@ -226,11 +226,6 @@ def r2_single_writer(ctx, prog):
         "Literal::index_strings": (r"parsed_value::Literal::index_strings$", [
             "[p1 is String] Deref::deref((p1 as String).0); StringIndexer::push_str(p2, Deref::deref((p1 as String).0)); (p1 as String).1 := StringIndexer::push_str(p2, Deref::deref((p1 as String).0)) => '()'",
             "[p1 is not String] => '()'"], "a string literal's index := strings.push_str(its own text); other literals untouched", PV),
-        "StringIndexer::push_str": (r"parse_locales::StringIndexer::push_str$", [
-            "[HashMap::get(p1.current, p2) is Some] HashMap::get(p1.current, p2) => (HashMap::get(p1.current, p2) as Some).0",
-            "[HashMap::get(p1.current, p2) is None] HashMap::get(p1.current, p2); Vec::len(p1.acc); From::from(p2); Clone::clone(From::from(p2)); Vec::push(p1.acc, Clone::clone(From::from(p2))); HashMap::insert(p1.current, From::from(p2), Vec::len(p1.acc)) => Vec::len(p1.acc)"],
-            "known string -> its index; new string -> index = acc.len() before the push, remembered under the same string", PM),
-        "StringIndexer::get_strings": (r"parse_locales::StringIndexer::get_strings$", ["[always] => p1.acc"], "the accumulated vector, by value (the indexer is consumed)", PM),
     }
     for label, (rx, w, what, file) in want.items():
         got = mpaths(prog, rx)
@@ -240,6 +235,44 @@ def r2_single_writer(ctx, prog):
             r.inst(label, what)
         else:
             r.viol("R2:" + label, "behaves as %s; confirmed behaviour: %s" % (got, what), file=file)
+    # the indexer itself, evaluated (rules/absint.py) on every sequence of at most 4 pushes over 3 strings: a string gets the
+    # position of its first occurrence among the distinct strings pushed so far, and the table is those strings in that order
+    import itertools
+    from rules import absint
+    from rules.absint import AEval, C as _C, CF as _CF, I as _I, L as _L
+    ps_fn = ctx.ast.fn(PM, "push_str", impl_self="StringIndexer")
+    gs_fn = ctx.ast.fn(PM, "get_strings", impl_self="StringIndexer")
+    if ps_fn is None or gs_fn is None:
+        r.missing("StringIndexer::push_str / get_strings")
+    else:
+        bad = None
+        nseq = 0
+        for ln in range(0, 5):
+            for seq in itertools.product("abc", repeat=ln):
+                state = _CF("StringIndexer", current=_L(), acc=_L())
+                distinct = []
+                for ch in seq:
+                    ev = AEval(funcs={})
+                    got = ev.run_fn(ps_fn, [state, ("str", ch)])
+                    if ch not in distinct:
+                        distinct.append(ch)
+                    if isinstance(got, str):
+                        bad = bad or "push_str cannot be evaluated: %s" % got
+                        break
+                    state = (getattr(ev, "last_env", None) or {}).get("self", state)
+                    if got != _I(distinct.index(ch)):
+                        bad = bad or "pushing %s gives index %s for `%s`, expected %d (position of its first occurrence)" % (list(seq), absint.fmt(got), ch, distinct.index(ch))
+                        break
+                else:
+                    tab = AEval(funcs={}).run_fn(gs_fn, [state])
+                    if tab != _L(*[("str", x) for x in distinct]):
+                        bad = bad or "after pushing %s the table is %s, expected %s" % (list(seq), tab if isinstance(tab, str) else absint.fmt(tab), distinct)
+                nseq += 1
+        if bad:
+            r.viol("R2:StringIndexer::push_str", bad, file=PM, line=ps_fn.line)
+        else:
+            r.inst("StringIndexer::push_str", "%d push sequences: known string -> its index; new string -> next slot; get_strings = the distinct strings in first-occurrence order" % nseq)
+            r.inst("StringIndexer::get_strings", "the accumulated table, in index order")
     # who writes the index field of Literal::String (MIR stores; an extracted single-caller helper counts as its caller)
     writers = set()
     for name, b in prog.bodies.items():
